@@ -4,20 +4,26 @@ import re
 
 PROP = "C19"
 ENGINE = "meta"
-LEAN_TARGETS = ["H5V.Props.C19", "H5V.Props.C19Fire"]
-AUDIT_IMPORTS = ["H5V.Props.C19", "H5V.Props.C19Fire"]
+LEAN_TARGETS = ["H5V.Props.C19", "H5V.Props.C19Fire", "H5V.Props.C19Decodes"]
+AUDIT_IMPORTS = ["H5V.Props.C19", "H5V.Props.C19Fire", "H5V.Props.C19Decodes"]
 THEOREMS = ["H5V.Props.C19." + t for t in ["C19_extract", "C19_extract_no_panic", "findLoop_spec", "outerLoop_spec",
     # the firing rule in the tree-builder model (Props/C19Fire.lean)
     "C19_in_head_meta", "C19_in_head_meta_total", "C19_charset_wins", "C19_rule_only_meta", "C19_foreign_only_meta",
     "C19_only_meta_fires", "C19_at_most_once", "C19_meta_routing", "C19_meta_foreign", "C19_meta_ignored",
-    "C19_fires_in_head", "C19_silent_in_head"]]
+    "C19_fires_in_head", "C19_silent_in_head",
+    # Props/C19Decodes.lean: the extracted slice of the UTF-8 bytes of any string is cut at ASCII bytes, hence at character
+    # boundaries, hence valid UTF-8 (core's String.fromUTF8? accepts it): the hypothesis MetaDecodes holds for every tag
+    "C19_utf8Bytes_eq", "C19_extract_cut", "C19_extract_boundaries", "C19_label_decodes", "C19_contentLabel_some",
+    "C19_contentLabel_none", "C19_extractEncoding_total", "C19_metaDecodes", "C19_in_head_meta_total'",
+    "C19_fires_in_head'", "C19_silent_in_head'"]]
 TRUSTED = [
     "Lean 4 kernel; axioms ⊆ {propext, Classical.choice, Quot.sound} (audited per run)",
     "H5V.Spec.MetaExtract: my transcription of the WHATWG 'algorithm for extracting a character encoding from a meta "
     "element' (raw label, no 'get an encoding' lookup — html5ever does not do it); cross-checked every run against an "
     "independent Python transcription by the oracle",
     "byte-level reading of the algorithm: all characters it inspects are ASCII and no byte of a multi-byte UTF-8 sequence "
-    "is ASCII, so bytes vs code points coincide (not proved)",
+    "is ASCII, so the slice is cut at character boundaries and decodes (proved: C19_extract_boundaries, C19_label_decodes, "
+    "for core's String.utf8EncodeChar / String.fromUTF8?)",
     "hand-written model lean/H5V/Model/Meta.lean of html5ever/src/encoding.rs, tied by the `meta extract` correspondence "
     "through the real public API (Tokenizer+TreeBuilder+RcDom, label of the EncodingIndicator returned by feed)",
     "the firing rule (which start tags raise an indicator, once, element already inserted, resumption transparent) is NOT "
